@@ -1,1 +1,98 @@
-From Verif Require Import Base.
+(* C18 — typed path-attribute decoders accept exactly well-formed attributes. *)
+From Verif Require Import Base Consts Packet Errors Update PacketSpec UpdateSpec UpdateOracles AttrProofs.
+
+(* attr_sound code flags b: the decoder accepts iff the Optional/Transitive bits are
+   the RFC's and the value satisfies the RFC rule; on success the value re-encodes
+   to the input (value_exact); on failure the error has the approach RFC 7606
+   assigns and the RFC 4271 fallback subcode/data (spec_attr_failure). *)
+Theorem c18_origin : forall flags b, flags < 256 -> wf_bytes b = true -> blen b < 65536 -> attr_sound 1 flags b.
+Proof. exact origin_sound. Qed.
+Print Assumptions c18_origin.
+
+Theorem c18_next_hop_originator_id : forall code flags b,
+  (code = 3 \/ code = 9) -> flags < 256 -> wf_bytes b = true -> blen b < 65536 -> attr_sound code flags b.
+Proof. exact addr4_sound. Qed.
+Print Assumptions c18_next_hop_originator_id.
+
+Theorem c18_med_local_pref : forall code flags b,
+  (code = 4 \/ code = 5) -> flags < 256 -> wf_bytes b = true -> blen b < 65536 -> attr_sound code flags b.
+Proof. exact u32attr_sound. Qed.
+Print Assumptions c18_med_local_pref.
+
+Theorem c18_aggregator : forall flags b, flags < 256 -> wf_bytes b = true -> blen b < 65536 -> attr_sound 7 flags b.
+Proof. exact aggregator_sound. Qed.
+Print Assumptions c18_aggregator.
+
+Theorem c18_communities : forall flags b, flags < 256 -> wf_bytes b = true -> blen b < 65536 -> attr_sound 8 flags b.
+Proof. exact communities_sound. Qed.
+Print Assumptions c18_communities.
+
+Theorem c18_cluster_list : forall flags b, flags < 256 -> wf_bytes b = true -> blen b < 65536 -> attr_sound 10 flags b.
+Proof. exact cluster_list_sound. Qed.
+Print Assumptions c18_cluster_list.
+
+Theorem c18_large_communities : forall flags b, flags < 256 -> wf_bytes b = true -> blen b < 65536 -> attr_sound 32 flags b.
+Proof. exact large_communities_sound. Qed.
+Print Assumptions c18_large_communities.
+
+(* AS_PATH: accepted iff RFC flags and a sequence of well-formed segments; failure class/subcode;
+   the decoded value is the LAST segment of each type ... *)
+Theorem c18_as_path : forall flags b,
+  flags < 256 -> wf_bytes b = true -> blen b < 65536 ->
+  match attr_decode 2 flags b with
+  | Ok v => flags_match flags (false, true) && rfc_value_ok 2 b = true
+            /\ exists segs, aspath_segments b = Some segs
+                            /\ v = VASPath (last_of 1 segs []) (last_of 2 segs [])
+  | Err e => flags_match flags (false, true) && rfc_value_ok 2 b = false
+             /\ spec_attr_failure 2 flags b e = true
+  | _ => False
+  end.
+Proof. exact aspath_decode_spec. Qed.
+Print Assumptions c18_as_path.
+
+(* ... so "losing no AS number" holds when each segment type occurs at most once (partial) ... *)
+Theorem c18_as_path_value_partial : forall flags b s q,
+  flags < 256 -> wf_bytes b = true -> blen b < 65536 ->
+  attr_decode 2 flags b = Ok (VASPath s q) ->
+  forall segs, aspath_segments b = Some segs ->
+  (count_type 1 segs <= 1)%nat -> (count_type 2 segs <= 1)%nat ->
+  s = flat_map snd (filter (fun t => fst t =? 1) segs) /\ q = flat_map snd (filter (fun t => fst t =? 2) segs).
+Proof. exact aspath_value_partial. Qed.
+Print Assumptions c18_as_path_value_partial.
+
+(* ... and the full statement is false of the code that exists: known finding D10 *)
+Theorem c18_as_path_value_refuted :
+  exists b s q segs, wf_bytes b = true /\ attr_decode 2 64 b = Ok (VASPath s q)
+    /\ aspath_segments b = Some segs
+    /\ s <> flat_map snd (filter (fun t => fst t =? 1) segs).
+Proof. exact aspath_value_refuted. Qed.
+Print Assumptions c18_as_path_value_refuted.
+
+(* ATOMIC_AGGREGATE: what the code does (flags validated as Optional+Transitive) ... *)
+Theorem c18_atomic_aggregate_partial : forall flags b,
+  flags < 256 -> wf_bytes b = true -> blen b < 65536 ->
+  match attr_decode 6 flags b with
+  | Ok v => flags_match flags (true, true) && (blen b =? 0) = true /\ v = VAtomic
+  | Err e => flags_match flags (true, true) && (blen b =? 0) = false
+             /\ (flags_match flags (true, true) = false -> e = ETaw 6 (Some (mkNotif 3 4 (spec_attr_tlv 6 b))))
+             /\ (flags_match flags (true, true) = true -> e = EDiscard 6 (Some (mkNotif 3 5 (spec_attr_tlv 6 b))))
+  | _ => False
+  end.
+Proof. exact atomic_aggregate_partial. Qed.
+Print Assumptions c18_atomic_aggregate_partial.
+
+(* ... which refutes the RFC statement (well-known, 0x40): known finding D9 *)
+Theorem c18_atomic_aggregate_refuted :
+  exists flags b, flags < 256 /\ wf_bytes b = true
+    /\ flags_match flags (false, true) && rfc_value_ok 6 b = true
+    /\ attr_decode 6 flags b = Err (ETaw 6 (Some (mkNotif 3 4 [6; 0]))).
+Proof. exact atomic_aggregate_refuted. Qed.
+Print Assumptions c18_atomic_aggregate_refuted.
+
+(* the flag accessors report the four high bits *)
+Theorem c18_flag_accessors : forall p,
+  p < 256 ->
+  flag_optional p = N.testbit p 7 /\ flag_transitive p = N.testbit p 6
+  /\ flag_partial p = N.testbit p 5 /\ flag_extlen p = N.testbit p 4.
+Proof. exact flag_accessors_spec. Qed.
+Print Assumptions c18_flag_accessors.
